@@ -245,8 +245,8 @@ func (e Float32Engine) Inner(a, b Tensor) (retVal float32, err error) {
 		return 0, errors.Errorf("b is not a *Dense")
 	}
 
-	A = AD.Float32s()
-	B = BD.Float32s()
+	A = blasOperand(AD).hdr().Float32s()
+	B = blasOperand(BD).hdr().Float32s()
 	retVal = whichblas.Sdot(len(A), A, 1, B, 1)
 	return
 }
